@@ -550,3 +550,25 @@ theorem lin3_lattice_round (u : ℚ) (rnd : ℚ → ℚ) (h : StdModel u rnd) (h
   simp [ex3, Ex.fl, h0, h1, hv]
 
 end Covfie.C03
+
+namespace Covfie.C03
+/-- every intermediate result of the exact evaluation is left unchanged by the rounding (e.g. small integers) -/
+def Ex.AllFixed (rnd : ℚ → ℚ) : Ex → Prop
+  | .lit _ => True
+  | .oneMinus q => rnd (1 - q) = 1 - q
+  | .mul a b => a.AllFixed rnd ∧ b.AllFixed rnd ∧ rnd (a.exact * b.exact) = a.exact * b.exact
+  | .add a b => a.AllFixed rnd ∧ b.AllFixed rnd ∧ rnd (a.exact + b.exact) = a.exact + b.exact
+
+/-- **exact stream**: when every intermediate result is representable, floating-point evaluation *is* exact evaluation
+    (what the `x` streams of the C09 / C03 correspondence rely on: small-integer matrices, vectors and weights) -/
+theorem fl_eq_exact_of_fixed (rnd : ℚ → ℚ) (e : Ex) (h : e.AllFixed rnd) : e.fl rnd = e.exact := by
+  induction e with
+  | lit q => rfl
+  | oneMinus q => exact h
+  | mul a b iha ihb =>
+    obtain ⟨ha, hb, hab⟩ := h
+    simp only [Ex.fl, Ex.exact, iha ha, ihb hb, hab]
+  | add a b iha ihb =>
+    obtain ⟨ha, hb, hab⟩ := h
+    simp only [Ex.fl, Ex.exact, iha ha, ihb hb, hab]
+end Covfie.C03
